@@ -6,5 +6,8 @@ import (
 	_ "verif/props/c03"
 	_ "verif/props/c04"
 	_ "verif/props/c08"
+	_ "verif/props/c12"
+	_ "verif/props/c13"
+	_ "verif/props/c14"
 	_ "verif/props/c15"
 )
